@@ -268,6 +268,7 @@ func runGateSeqOps(rc *RunCtx, prop string, fixed []gateOp, fixedBroker bool) {
 		return -1
 	}
 	seq := 0
+	var acceptedP []*gPayload // payload objects of the non-flush events handed to the filter so far
 	var histStr []string
 	fail := func(rule, class, format string, a ...interface{}) {
 		rc.Failf(prop+"."+rule, class, "%s\nhistory: %s", fmt.Sprintf(format, a...), strings.Join(histStr, "; "))
@@ -329,6 +330,11 @@ func runGateSeqOps(rc *RunCtx, prop string, fixed []gateOp, fixedBroker bool) {
 			}
 			if !probe && fixed == nil && tp.Choose(14, "replace-clock") == 0 {
 				op = gateOp{Kind: "replace-clock"}
+			}
+			if !probe && fixed == nil && len(acceptedP) > 0 && tp.Choose(12, "payload-object-reused") == 0 {
+				// the application recycles a payload object it handed over earlier (a pooled request record): the
+				// event was accepted under the id it carried THEN
+				op = gateOp{Kind: "recycle-payload", Seq: tp.Choose(len(acceptedP), "which-payload"), ID: []string{"zz", "a", "c"}[tp.Choose(3, "new-id")]}
 			}
 			if !probe && fixed == nil && tp.Choose(12, "reopen") == 0 {
 				// Reopen (the Broker calls it on every node of every pipeline) must leave the gate as it is
@@ -459,6 +465,11 @@ func runGateSeqOps(rc *RunCtx, prop string, fixed []gateOp, fixedBroker bool) {
 				clockGen++
 				gf.NowFunc = mkClock()
 				simrt.Probe("gate.clock-replaced")
+			case "recycle-payload":
+				pl := acceptedP[op.Seq]
+				histStr = append(histStr, fmt.Sprintf("payload-object-of-event#%d-now-says-id(%s)", pl.Seq, op.ID))
+				pl.ID = op.ID
+				simrt.Probe("gate.payload-object-reused-under-another-id")
 			case "reopen":
 				histStr = append(histStr, "reopen")
 				if err := gf.Reopen(); err != nil {
@@ -479,6 +490,9 @@ func runGateSeqOps(rc *RunCtx, prop string, fixed []gateOp, fixedBroker bool) {
 				histStr = append(histStr, fmt.Sprintf("event(%s,flush=%v)#%d%s", op.ID, op.Flush, seq, map[bool]string{true: "[ctx done]", false: ""}[op.Done]))
 				// (creation stamps need not follow arrival order: overlapping Sends, a stopped or reset Broker clock)
 				ev := &el.Event{Type: "t", CreatedAt: gateStamp(seq), Payload: &gPayload{ID: op.ID, Flush: op.Flush, Seq: seq, h: h}}
+				if !op.Flush {
+					acceptedP = append(acceptedP, ev.Payload.(*gPayload))
+				}
 				pctx := ctx
 				if op.Done {
 					c, cancel := context.WithCancel(ctx)
